@@ -534,7 +534,7 @@ func (m *Machine) RunHarness(ex *Explorer, pkg *ssa.Package, fn *ssa.Function) (
 			site = "?"
 		}
 		if ex != nil {
-			panic(uncaughtPanic{kind, site, msg})
+			panic(uncaughtPanic{kind, site, msg + " [" + i.panicStack + "]"})
 		}
 		panicMsg = kind + "@" + site + ": " + msg
 	}()
